@@ -581,7 +581,7 @@ CCEL_MEASURED = "{0, 1, 2}"   # cross-checked against the log itself at run time
 
 def _key_ccel(call, evs):
     i = call["input"]
-    return "v=%s,p=%s,f=%s,lvl=%s" % (i["v"], i["p"], i["f"], i["lvl"])
+    return "v=%s,p=%s,f=%s,lvl=%s,ld=%s,cf=%s" % (i["v"], i["p"], i["f"], i["lvl"], i.get("ld"), i.get("cf"))
 
 
 def _c18(prop, tier):
